@@ -193,6 +193,36 @@ class Evaluator:
             v = self.ev(e.value)
             self.locals[e.target.id] = v
             return v
+        if isinstance(e, (ast.SetComp, ast.ListComp, ast.GeneratorExp)) and len(e.generators) == 1 and isinstance(e.generators[0].target, ast.Name):
+            # a comprehension over a concrete sequence (an atom gave the iterable): filter and map element by element
+            g = e.generators[0]
+            seq = self.ev(g.iter)
+            if seq is UNKNOWN or not isinstance(seq, (list, tuple, frozenset, set)):
+                return UNKNOWN
+            out_: List[Any] = []
+            saved = dict(self.locals)
+            try:
+                for item in seq:
+                    self.locals[g.target.id] = item
+                    keep = True
+                    for cond in g.ifs:
+                        cv = self.ev(cond)
+                        if cv is UNKNOWN:
+                            return UNKNOWN
+                        if not self._truth(cv):
+                            keep = False
+                            break
+                    if keep:
+                        v = self.ev(e.elt)
+                        if v is UNKNOWN:
+                            return UNKNOWN
+                        out_.append(v)
+            finally:
+                self.locals = saved
+            try:
+                return frozenset(out_) if isinstance(e, ast.SetComp) else list(out_)
+            except TypeError:
+                return UNKNOWN
         return UNKNOWN
 
     def _module_value(self, e: ast.AST) -> Any:
